@@ -14,7 +14,10 @@ import common, mdrun, msggen
 from common import hexs, unhexs
 
 WORDS_ASCII = [b'hello', b'world', b'say', b'plain text', b'needle', b'foo', b'o', b'hello hello', b'x=y', b'a+b', b'[list]']
-WORDS_MB = [b'caf\xc3\xa9', b'\xe6\xbc\xa2\xe5\xad\x97', b'\xf0\x9f\x98\x80 ok', b'na\xc3\xafve hello']
+WORDS_MB = [b'caf\xc3\xa9', b'\xe6\xbc\xa2\xe5\xad\x97', b'\xf0\x9f\x98\x80 ok', b'na\xc3\xafve hello',
+            # bytes that are no complete UTF-8 sequence, directly in front of text the patterns match (Latin-1 text, a cut-off sequence):
+            # one column each, and no influence on the lines shown after them
+            b'caf\xc3hello', b'R\xe9union hello', b'\xe6\xbchello world', b'Gr\xc3\xbc\xc3\x9fe hello world']
 PATTERNS = [(b'hello', False), (b'h(el)lo', False), (b'(w)(or)ld', False), (b' hello', False), (b'HELLO', True), (b'o+', False),
             (b'^say', False), (b'(plain) (text)', False), (b'needle|foo', False), (b'z*', False), (b'caf(\xc3\xa9)', False),
             (b'\xe6\xbc\xa2(\xe5\xad\x97)', False), (b'(\xf0\x9f\x98\x80) ok', False), (b'(x)=(y)?', False), (b'(q)?hello', False),
@@ -187,7 +190,7 @@ def act_text(a):
     return b'exec "%s"' % arg.encode()
 
 
-def evaluate(rules, truth):
+def evaluate(rules, truth, loc='C'):
     """ground-truth evaluation -> (index of the rule that fires | None | 'E', entries appended to the match list in order)
     entry = (rule index, [candidate (key, value, groups)]): the implementation records the first candidate that
     matches in ITS value order; any of them is a true explanation"""
@@ -203,7 +206,7 @@ def evaluate(rules, truth):
                         plan.append((ri, ci, b'Date' if k.startswith(b'*') else k, v)); queries.append((ic, pat, v))
             elif kind == 'body':
                 plan.append((ri, ci, b'Body', truth['body'])); queries.append((ic, pat, truth['body']))
-    res = common.regex_eval(queries) if queries else []
+    res = common.regex_eval(queries, loc) if queries else []
     table = {}
     for (ri, ci, k, v), r in zip(plan, res):
         table.setdefault((ri, ci), []).append((k, v, r))
@@ -344,7 +347,7 @@ def one_round(ck, rng, stats, samples):
     model = common.model_exe()
     reqs = []
     for p, (i, text, truth, sub, nm) in msgs.items():
-        fired, entries = evaluate(rules, truth)
+        fired, entries = evaluate(rules, truth, loc)
         got = blocks.get(p, [])
         stats['msgs'] += 1
         if fired == 'E':
